@@ -55,6 +55,7 @@ class CustomOperationGenerator:
         custom_scalars: Optional[Dict[str, ScalarData]] = None,
         plugin_manager: Optional[PluginManager] = None,
         convert_to_snake_case: bool = True,
+        input_types_module_name: str = "input_types",
     ) -> None:
         self.graphql_fields = graphql_fields
         self.name = name
@@ -72,6 +73,7 @@ class CustomOperationGenerator:
             self.custom_scalars,
             self.convert_to_snake_case,
             self.plugin_manager,
+            input_types_module_name=input_types_module_name,
         )
 
         self._class_def = generate_class_def(name=name, base_names=[])
